@@ -3,6 +3,8 @@
 package main
 
 import (
+	"strings"
+	"runtime"
 	"bufio"
 	"database/sql"
 	"flag"
@@ -30,10 +32,15 @@ func tickMain() {
 	nkeys := flag.Int("keys", 2000, "population size")
 	period := flag.Int("period", 60, "documented period in seconds")
 	afterClose := flag.Bool("afterclose", true, "also wait one period after Close")
+	lifecycle := flag.Bool("lifecycle", false, "instead of the real-time observation: open / close sequences, counting the reclamation goroutines")
 	backlog := flag.Int("backlog", 0, "instead of the real-time observation: this many expired keys, then ONE reclamation step as the ticker issues it")
 	flag.Parse()
 	if *backlog > 0 {
 		backlogMain(*backlog)
+		return
+	}
+	if *lifecycle {
+		lifecycleMain()
 		return
 	}
 	out = bufio.NewWriterSize(os.Stdout, 1<<16)
@@ -275,4 +282,102 @@ func backlogMain(n int) {
 	seq++
 	fmt.Fprintf(out, "TICK %d %d | backlog | keys=%d expiredBefore=%d removed=%d err=%v expiredAfter=%d orphanChildren=%d liveKeys=%d liveElems=%d TK=%s\n",
 		seq, nowMs(), n, before, removed, derr, after, orphans, liveLeft, liveElems, b01(okv))
+}
+
+
+// bgGoroutines counts the goroutines started by package redka itself (the background manager is the only one).
+func bgGoroutines() int {
+	time.Sleep(30 * time.Millisecond)
+	buf := make([]byte, 1<<20)
+	n := runtime.Stack(buf, true)
+	return strings.Count(string(buf[:n]), "created by github.com/nalgeon/redka.")
+}
+
+// lifecycleMain: the reclamation goroutine exists exactly while a read-write handle is open, whatever the order of
+// Open / OpenRead / Close calls and however the Options value is shared between them. No waiting for a tick.
+func lifecycleMain() {
+	out = bufio.NewWriterSize(os.Stdout, 1<<16)
+	defer out.Flush()
+	dir, err := os.MkdirTemp("", "verif_life_")
+	if err != nil {
+		fmt.Fprintln(os.Stderr, err)
+		os.Exit(2)
+	}
+	defer os.RemoveAll(dir)
+	fmt.Fprintf(out, "# trace 0 lifecycle\n")
+	// Close stops the ticker but the goroutine stays parked on the stopped ticker's channel (a leak, observed and
+	// recorded in DESIGN.md), so goroutines are counted as DELTAS: an open of a read-write handle starts exactly
+	// one, an open of a read-only handle none, a close starts none
+	last := bgGoroutines()
+	report := func(what string, want int, errs ...error) {
+		now := bgGoroutines()
+		got := now - last
+		last = now
+		ok := got == want || (want == 0 && got < 0)
+		for _, e := range errs {
+			if e != nil {
+				ok = false
+			}
+		}
+		seq++
+		fmt.Fprintf(out, "TICK %d %d | lifecycle %s | started=%d want=%d errs=%v TK=%s\n", seq, nowMs(), what, got, want, errs, b01(ok))
+	}
+	path := func(n string) string { return filepath.Join(dir, n) }
+
+	// 1. read-write open and close
+	db, err := redka.Open(path("a.db"), nil)
+	report("open-rw", 1, err)
+	err = db.Close()
+	report("close-rw", 0, err)
+	// 2. read-only open and close (the file exists)
+	ro, err := redka.OpenRead(path("a.db"), nil)
+	report("open-ro", 0, err)
+	err = ro.Close()
+	report("close-ro", 0, err)
+	// 3. one Options value used for a read-only handle first and a read-write handle afterwards
+	opts := &redka.Options{}
+	ro, err = redka.OpenRead(path("a.db"), opts)
+	report("shared-opts open-ro", 0, err)
+	db, err = redka.Open(path("a.db"), opts)
+	report("shared-opts open-rw after ro", 1, err)
+	if err == nil {
+		_, werr := db.Set().Add("s", "m")
+		report("shared-opts write on rw", 0, werr)
+	}
+	err = ro.Close()
+	report("shared-opts close-ro", 0, err)
+	err = db.Close()
+	report("shared-opts close-rw", 0, err)
+	// 4. and the other way round
+	opts2 := &redka.Options{}
+	db, err = redka.Open(path("a.db"), opts2)
+	report("shared-opts2 open-rw", 1, err)
+	ro, err = redka.OpenRead(path("a.db"), opts2)
+	report("shared-opts2 open-ro after rw", 0, err)
+	if err == nil {
+		_, rerr := ro.Key().Len()
+		report("shared-opts2 read on ro", 0, rerr)
+	}
+	err = db.Close()
+	report("shared-opts2 close-rw", 0, err)
+	err = ro.Close()
+	report("shared-opts2 close-ro", 0, err)
+	// 5. two read-write handles on two files
+	d1, e1 := redka.Open(path("b.db"), nil)
+	d2, e2 := redka.Open(path("c.db"), nil)
+	report("two handles", 2, e1, e2)
+	err = d1.Close()
+	report("two handles, one closed", 0, err)
+	err = d2.Close()
+	report("two handles, both closed", 0, err)
+	// 6. close right after open, then open again
+	db, err = redka.Open(path("a.db"), nil)
+	report("open before immediate close", 1, err)
+	if err == nil {
+		err = db.Close()
+	}
+	db, err2 := redka.Open(path("a.db"), nil)
+	report("reopen after close", 1, err, err2)
+	err = db.Close()
+	report("closed again", 0, err)
 }
